@@ -326,7 +326,9 @@ def compute_A2_local(Q, microstructure):
     y = r * microstructure.autocorrelation_function(r)
     integrale1 = scipy.integrate.romb(y.real, maxr / n)
 
-    A2 = 2 * Q**2 * (integrale1 + 1j / (4 * np.pi) * microstructure.ft_autocorrelation_function(0) * Q)
+    # some microstructure models return a 1-element array for a scalar wavenumber
+    ft0 = float(np.squeeze(microstructure.ft_autocorrelation_function(0)))
+    A2 = 2 * Q**2 * (integrale1 + 1j / (4 * np.pi) * ft0 * Q)
 
     return A2
 
